@@ -374,6 +374,17 @@ export async function run(ctx) {
           await judge(ctx, { files: { "entry.ts": text }, settings: { string_formats: ["\u00e9lan"], number_formats: [] } }, `lib-name:${n}/${form}`);
         }
   }
+  // export * ladders: 2 * levels modules, 2^levels routes (seeded C04-i)
+  {
+    let k = 0;
+    for (const levels of [2, 5, 12, 20, 30, 45])
+      for (const use of ["missing-type", "found-type", "missing-value", "namespace", "typeof-namespace"]) {
+        k++;
+        if (k % ctx.of !== ctx.shard) continue;
+        ctx.count("export-star-ladder-grid");
+        await judge(ctx, { files: exportStarLadder(levels, use), settings: { string_formats: [], number_formats: [] } }, `export-star-ladder:${levels}/${use}`);
+      }
+  }
   // two (or three) different recursive types that each go through a semantic operator in ONE build:
   // the helper types the computations introduce share the build's name space
   {
@@ -525,6 +536,16 @@ export async function run(ctx) {
   for await (const item of corpus(ctx, { label: "C04-supported", count: nSup, features: {} })) {
     await judge(ctx, item.req, "supported");
   }
+}
+
+// stacked `export *` diamonds: every level has two modules that both pass on both modules of the next level;
+// a name that is not there (or only at the far end) must still be answered promptly - the number of ROUTES
+// through the graph is 2^levels, the number of modules 2 * levels
+export function exportStarLadder(levels, use) {
+  const files = {};
+  for (let i = 0; i < levels; i++) for (const s of ["a", "b"]) files[`${s}${i}.ts`] = i + 1 < levels ? `export * from "./a${i + 1}";\nexport * from "./b${i + 1}";\n` : s === "b" ? "export type Found = { at: \"the far end\" };\nexport const found = 1;\n" : "export type Other = 1;\n";
+  files["entry.ts"] = { "missing-type": 'import { Missing } from "./a0";\nexport const P = parse.buildParsers<{ X: Missing }>();\n', "found-type": 'import { Found } from "./a0";\nexport const P = parse.buildParsers<{ X: Found }>();\n', "missing-value": 'import { missing } from "./a0";\nexport const P = parse.buildParsers<{ X: typeof missing }>();\n', "namespace": 'import * as ns from "./a0";\nexport const P = parse.buildParsers<{ X: ns.Found; Y: typeof ns.found }>();\n', "typeof-namespace": 'import * as ns from "./a0";\nexport const P = parse.buildParsers<{ X: typeof ns }>();\n' }[use];
+  return files;
 }
 
 export async function replay(ctx, c) {
